@@ -132,6 +132,10 @@ func (c *Collection) GetAndTouchRaw(key string, exp Exp) (val []byte, cas CAS, e
 		}
 		return
 	})
+	if err == nil {
+		// No event is posted for a touch, so the expiry timer has to be (re)armed here:
+		c.bucket.expManager.scheduleExpirationAtOrBefore(exp)
+	}
 	traceExit("GetAndTouchRaw", err, "cas=0x%x, val %s", cas, val)
 	return
 }
